@@ -7,6 +7,8 @@ NOTE = ("verdicts are z3 4.8.12 / z3 5.1.0 / cvc5 1.0 answers over the symgo SSA
         "every bound (lengths, unwinding, allocation, shapes) is listed per obligation in the evidence and checked, not assumed; "
         "translator validated per run by replaying reachability witnesses natively and in concrete mode; ")
 CLAIMED = {
+ "C05": ("validation soundness of MVCC read-sets for point reads and prefix reads in a two-phase sequential model: if commit-time validation passes, every recorded read re-evaluated on the commit-time state yields what the transaction observed; no spurious conflict when nothing changed",
+         "the index under the snapshot is a symbolic 3-key model behind stubs of the Snapshot methods; range readers, prefix fingerprints, real interleavings and the locking discipline are outside the claim", "DESIGN.md §4 C05"),
  "C13": ("the savepoint/rollback write-set kernel on a real store transaction: ROLLBACK TO SAVEPOINT must leave the pending write set and the bookkeeping as they were at the savepoint; Cancel closes the store transaction and refuses commit/writes; symbolic keys and values, up to 2+2 writes",
          "only SQLTx.Savepoint/RollbackToSavepoint/ReleaseSavepoint/Cancel over store.OngoingTx; session isolation, statement atomicity, DDL and pgwire are outside the claim; the write-set part is a recorded known finding (twin harness covers the rest)", "DESIGN.md §4 C13"),
  "C14": ("tombstone safety of value-log truncation: for every history of n transactions whose values landed in any value log at any offsets (out of id order, empty first values), and every cut point, TruncateUptoTx never discards beyond the first value of a transaction at or after the cut, and never discards with embedded values",
